@@ -1,7 +1,11 @@
 """C05 — exactly the requested points are fitted."""
 from __future__ import annotations
 
+import ast
+
 from .. import fitclauses, fitrules
+from ..astutil import call_name, dotted, norm, walk_no_nested
+from ..guards import conditions_at
 
 EXPLANATION = (
     "Mask algebra and dataflow on IndentationFitter.fit / _fit / "
@@ -41,6 +45,60 @@ def r7_dont_care_agreement(ctx):
     fitclauses.clause_upper_bound_agreement(ctx, "setitem")
 
 
+def r9_scratch_is_the_request(ctx):
+    """The fitter works on scratch copies of three settings (range, range
+    type, plateau switch).  Outside fit() - which restores what it changes
+    (R6) - they are written only in the constructor, and only as a copy of
+    the setting of the same name: anything else (clipped, sorted, widened
+    bounds) makes the fit use an interval other than the requested one."""
+    from .c03 import FITTER_SCRATCH
+    fitm = ctx.repo.mod("fit")
+    n = 0
+    for q, f in fitm.funcs.items():
+        if not q.startswith("IndentationFitter.") or q.count(".") != 1:
+            continue
+        meth = q.split(".")[1]
+        if meth != "__init__":
+            # fit() restores what it changes (R6); the scan sets its own
+            # lower bounds on purpose (R4)
+            continue
+        for st in walk_no_nested(f, False):
+            tg = []
+            if isinstance(st, ast.Assign):
+                tg = st.targets
+            elif isinstance(st, (ast.AugAssign, ast.AnnAssign)):
+                tg = [st.target]
+            for t in tg:
+                for attr in FITTER_SCRATCH:
+                    hit = dotted(t) == f"self.{attr}" or (
+                        isinstance(t, ast.Subscript)
+                        and dotted(t.value) == f"self.{attr}")
+                    if not hit:
+                        continue
+                    n += 1
+                    v = getattr(st, "value", None)
+                    while isinstance(v, ast.Call) and call_name(v) in (
+                            "list", "tuple", "copy.copy", "copy.deepcopy") \
+                            and len(v.args) == 1:
+                        v = v.args[0]
+                    ok = meth == "__init__" and isinstance(
+                        st, ast.Assign) and not isinstance(
+                        t, ast.Subscript) and v is not None and norm(v) in (
+                            f"self.fp['{attr}']", f"self.fp.get('{attr}')") \
+                        and not conditions_at(st)
+                    ctx.check(ok, st, f"{q}: self.{attr} <- the setting",
+                              f"fit.py:{q} sets the fitter's working "
+                              f"`{attr}` to `{norm(st)[:70]}`"
+                              + (" (conditionally)" if conditions_at(st)
+                                 else "") + ", not to a plain copy of the "
+                              f"requested setting '{attr}': the fit then "
+                              "runs on a different interval/mode than "
+                              "requested (e.g. a clipped absolute range "
+                              "outside the data collapses to zero width, "
+                              "which selects the whole segment)")
+    ctx.floor("stores of the fitter's scratch settings in its constructor", n, 3)
+
+
 RULES = [
     ("C05-R1", "absolute range mask: closed interval on the unscaled "
      "abscissa within a copy of the segment mask",
@@ -61,4 +119,6 @@ RULES = [
     ("C05-R8", "a request is copied into the settings in an order in which "
      "every setting is judged against the new values it depends on",
      fitclauses.clause_store_order),
+    ("C05-R9", "the fitter's working range, range type and plateau switch "
+     "start as plain copies of the request", r9_scratch_is_the_request),
 ]
